@@ -42,7 +42,7 @@ def res_of_outputs(outs, outkind) -> str:
 def run_real(L, F, case):
     """Trace the real function and run it on onnxruntime.
     Returns dict(term, res, outs, err)."""
-    fn = getattr(L._mods()["core"], F["fnname"])
+    fn = L.find_fn(F["fnname"])
     args, kwargs = F["call"](case)
     try:
         model, feeds, outs, structure = L.trace(fn, args, kwargs)
